@@ -1601,10 +1601,13 @@ func (g *Gen) scenarios() []intent {
 			}
 			out = append(out, SymStep{Kind: "req", Req: &SymReq{Browser: b, Method: "POST", Route: "EmailVerify", Arg: kind}},
 				end(lit(pickS(g.rng, "AAAAAAAAAAAAAAAAAAAAAA==", "stale-link", "x"))))
-			if g.rng.Intn(2) == 0 {
+			{
 				// the mailed link is opened where nobody is logged in (another browser, an expired session): the
 				// gate refuses - and the link's token is nobody's business on the way (logs, redirect target)
-				b2 := g.browser()
+				b2 := "b1"
+				if b == "b1" {
+					b2 = "b2"
+				}
 				if b2 != b {
 					e := end(Desc{K: "mailtok", Kind: "2fa", U: u})
 					r2 := *e.Req
